@@ -1344,7 +1344,7 @@ func runC15(c *Ctx) {
 		}
 		c15LockHistory(c, rt, pr, k)
 		if k == 0 {
-			trials := 120
+			trials := 100
 			if c.Thorough {
 				trials = 600
 			}
